@@ -1,10 +1,82 @@
 (* statement pins and axiom audit for C18 (compiled on every check) *)
+From Coq Require Import Permutation.
 From ChiaV.Base Require Import Bytes Sha256.
 From ChiaV.Gen Require Import Dl.
-From ChiaV.Dl Require Import Format Map Tree Blob Abs History Spec.
+From ChiaV.Dl Require Import Format Map Tree Blob Abs Inv History Spec FormatProofs BlobLemmas BlobOps.
 From ChiaV.Props Require Import C18.
 Open Scope N_scope.
 
+Check C18_tree_op_refines_map : forall H, (forall x, H x <> []) -> forall o ot m,
+  tree_refines H ot m -> known_top m o = false ->
+  let '(ok1, ot1) := step1 H o ot in
+  let '(ok0, m0) := step0 o m in
+  ok1 = ok0 /\ tree_refines H ot1 m0 /\ (ok1 = false -> ot1 = ot).
+Print Assumptions C18_tree_op_refines_map.
+Check C18_tree_history_refines_map : forall H, (forall x, H x <> []) -> forall ops,
+  known_hist ops [] = false -> tree_refines H (run1 H ops None) (run0 ops []).
+Print Assumptions C18_tree_history_refines_map.
+Check C18_root_is_recomputation : forall H t, twf H t ->
+  t_hash (t_rehash H t) = merkle H t /\ twf H (t_rehash H t) /\ t_all_clean (t_rehash H t) = true.
+Print Assumptions C18_root_is_recomputation.
+Check C18_proofs_valid : forall H t k, twf H t -> t_all_clean t = true -> In k (tkeys t) ->
+  exists p, t_proof k t = Some p /\ proof_valid H p = true /\ proof_root_hash p = t_hash t /\
+            exists v, m_get k (t_kv t) = Some (v, p_node_hash p).
+Print Assumptions C18_proofs_valid.
+Check C18_history_root_and_proofs : forall H, (forall x, H x <> []) -> forall ops,
+  known_hist ops [] = false ->
+  let m := run0 ops [] in
+  match run1 H (ops ++ [THash]) None with
+  | None => m = []
+  | Some t =>
+      Permutation (t_kv t) m /\ t_hash t = merkle H t /\
+      forall k, m_mem k m = true ->
+        exists p, t_proof k t = Some p /\ proof_valid H p = true /\ proof_root_hash p = t_hash t /\
+                  exists v, m_get k m = Some (v, p_node_hash p)
+  end.
+Print Assumptions C18_history_root_and_proofs.
+Check C18_block_codec : forall b, wf_block b ->
+  exists bs, encode_block b = Ok bs /\ length bs = N.to_nat BLOCK_SIZE /\ decode_block bs = Ok b.
+Print Assumptions C18_block_codec.
+Check C18_inv_abs : forall H s t, Inv_tree H s t -> abs s = Some (Some (erase t)).
+Print Assumptions C18_inv_abs.
+Check C18_blob_mark_lineage : forall c s hole fuel,
+  ctx_rep s c hole -> closed c -> blen_ok s -> NoDup (ctx_indices c) -> hole < 2 ^ 32 -> Forall wf_frame c ->
+  (forall f, In f c -> ~ In (fr_idx f) (free s)) ->
+  (length c < fuel)%nat ->
+  match c with
+  | [] => True
+  | f :: _ =>
+      exists s', mark_lineage fuel (fr_idx f) s = (Ok tt, s') /\
+        ctx_rep s' (map set_dirty c) hole /\
+        (forall j, ~ In j (map fr_idx c) -> get_block s' j = get_block s j) /\
+        nblocks s' = nblocks s /\ blen_ok s' /\ free s' = free s /\ k2i s' = k2i s /\ h2i s' = h2i s
+  end.
+Print Assumptions C18_blob_mark_lineage.
+Check C18_blob_upsert_refines_tree : forall H s t k v h,
+  Inv_tree H s t -> v < 2 ^ 64 -> length h = HASH_BYTES ->
+  In k (it_keys t) ->
+  (forall i' k' v', In (i', k', v', h) (it_leaves t) -> k' = k) ->
+  exists s' t', upsert H k v h s = (Ok tt, s') /\ Inv_tree H s' t' /\
+    t_upsert H k v h (Some (erase t)) = (true, Some (erase t')).
+Print Assumptions C18_blob_upsert_refines_tree.
+Check C18_blob_insert_first_refines_tree : forall H k v h loc,
+  k < 2 ^ 64 -> v < 2 ^ 64 -> length h = HASH_BYTES -> loc = LAuto \/ loc = LRoot ->
+  exists s', insert H k v h loc empty_blob = (Ok 0, s') /\ Inv_tree H s' (ILeaf 0 k v h) /\
+    t_insert H k v h (match loc with LAuto => TAuto | _ => TRoot end) None = (true, Some (erase (ILeaf 0 k v h))).
+Print Assumptions C18_blob_insert_first_refines_tree.
+Check C18_blob_delete_last_refines_tree : forall H s i k v h,
+  Inv_tree H s (ILeaf i k v h) ->
+  delete k s = (Ok tt, empty_blob) /\ t_delete k (Some (erase (ILeaf i k v h))) = (true, None).
+Print Assumptions C18_blob_delete_last_refines_tree.
+Check C18_blob_history_refines_map_partial : forall H s t k v h,
+  Inv_tree H s t -> v < 2 ^ 64 -> length h = HASH_BYTES -> In k (it_keys t) ->
+  (forall i' k' v', In (i', k', v', h) (it_leaves t) -> k' = k) ->
+  exists s' t', step2 H (OUpsert k v h) s = (Ok None, s') /\ Inv_tree H s' t' /\
+    abs s = Some (Some (erase t)) /\ abs s' = Some (Some (erase t')) /\
+    step1 H (TUpsert k v h) (Some (erase t)) = (true, Some (erase t')).
+Print Assumptions C18_blob_history_refines_map_partial.
+Check C18_invariant_inhabited : exists s t, Inv_tree sha256 s t /\ abs s = Some (Some (erase t)).
+Print Assumptions C18_invariant_inhabited.
 Check C18_batch_duplicate_refuted :
   exists items, known_top [] (TBatch items) = true /\
     let '(x, s) := step2 sha256 (OBatch items) empty_blob in
